@@ -69,18 +69,21 @@ def gen_history(rnd, seed):
     k = rnd.randint(4, 7)
     for _ in range(k):
         u = rnd.random()
-        if u < 0.35:
+        if u < 0.2:
             ops.append(['diff', seed, rnd.randrange(12), rnd.choice('lr')])
+        elif u < 0.35:
+            ops.append(['diffk', seed, rnd.randrange(12)])
         elif u < 0.65:
             a = rnd.choice(mergespace.all_args())
             ops.append(['merge', seed, rnd.randrange(12), list(mergespace.args_key(a))])
         elif u < 0.85:
-            ops.append(['targets', [rnd.random() < 0.6 for _ in range(6)]])
+            ops.append(['targets', [True] * 6 if rnd.random() < 0.35 else [rnd.random() < 0.6 for _ in range(6)]])
         elif u < 0.93:
             ops.append(['ignores', rnd.choice([{'/cells/*/outputs': True}, {'/cells/*/metadata': ['collapsed', 'tags']}, {'/metadata': True, '/cells/*': ['id']},
                                                {'/cells/*/outputs': False}])])
         else:
             ops.append(['reset'])
+    ops.append(['diffk', seed, rnd.randrange(12)])
     ops.append(['diff', seed, rnd.randrange(12), 'l'])
     return ops
 
@@ -102,7 +105,7 @@ def _history_job(job):
     fails = []
     n = 0
     for i, op in enumerate(ops):
-        if op[0] not in ('diff', 'merge'):
+        if op[0] not in ('diff', 'diffk', 'merge'):
             continue
         n += 1
         fresh = worker(in_force(ops, i) + [op])[-1]
